@@ -51,6 +51,16 @@ class Models:
             msg = a[0] if a and isinstance(a[0], str) else (a[0].what if a and isinstance(a[0], Opaque) else c)
             raise Panic(f"{msg}")
 
+        @R(r"^<(u8|u16|u32|u64|u128|usize|i8|i16|i32|i64|i128|isize) as From<bool>>::from$|^<bool as Into<(u8|u16|u32|u64|u128|usize|i32|i64)>>::into$")
+        def _from_bool(ex, c, a):
+            b = a[0]
+            w = {"u8": 8, "u16": 16, "u32": 32, "u64": 64, "u128": 128, "usize": 64, "i8": 8, "i16": 16, "i32": 32, "i64": 64, "i128": 128, "isize": 64}[re.search(r"(usize|isize|[ui]\d+)", c).group(1)]
+            if isinstance(b, SB):
+                return SV(z3.If(b.e, z3.BitVecVal(1, w), z3.BitVecVal(0, w)), w)
+            if isinstance(b, SV):
+                return SV(z3.ZeroExt(w - b.w, b.e) if b.w < w else b.e, w)
+            return 1 if b else 0
+
         # ---- fmt (opaque)
         @R(r"^Arguments::<'_>::(new|from_str|new_const|new_v1)|^core::fmt::rt::Argument::<'_>::new_|^format$|^std::fmt::format|^must_use::<.*>$|^alloc::fmt::format")
         def _fmt(ex, c, a):
